@@ -92,6 +92,9 @@ def run(c, chk):
     lex = c.lex
     ambient_errno(c, chk)
     refused_include_leaves_nothing(c, chk)
+    from . import c16
+    chk.rule('R8.8', 'the library writes only the state bits (reset, defaults-applied, modified, annotated) of an option\'s flag word: the declaration bits read the same in every later parse')
+    c16.flag_words(c, chk, rid_opt='R8.8')
     gl = {}
     for m in (c.confuse, c.lexer):
         for name, g in mutable_globals(m).items():
@@ -312,6 +315,63 @@ def ambient_errno(c, chk):
         else:
             chk.ok('R8.6', fname, 'errno is read only after the library (or the conversion call) has set it on that path', sample=True)
     chk.floor('R8.6 paths of the value store', n, 50)
+    errno_reads(c, chk, 'R8.6')
+
+
+def errno_readers(c):
+    """functions (helpers excluded: they are explored inside their callers) that branch on a value loaded from errno"""
+    out = []
+    for m in c.modules:
+        for f in m.funcs.values():
+            if f.name in c.unknown_funcs:
+                continue
+            hit = False
+            for g in c.deep_funcs(f):
+                locs = set(i.res for i in g.instrs() if i.op == 'call' and i.callee_name() == '__errno_location')
+                vals = set(i.res for i in g.instrs() if i.op == 'load' and i.ops and i.ops[0].kind == 'reg' and i.ops[0].name in locs)
+                if any(i.op in ('icmp', 'switch') and any(o.kind == 'reg' and o.name in vals for o in i.ops) for i in g.instrs()):
+                    hit = True
+            if hit:
+                out.append(f)
+    return out
+
+
+def errno_reads(c, chk, rid, funcs=None):
+    """a decision that reads errno is sound only if, on that path, the library stored a value into errno beforehand (the
+    'errno = 0' before a conversion) or the call just before is known to have failed (a failing call always sets it);
+    otherwise the decision sees whatever an earlier, unrelated failure left there"""
+    ex = sym.Explorer(c.modules, max_visits=2, mod_sets=c.mod_sets, max_paths=100000)
+    nr = 0
+    for fn in errno_readers(c):
+        if funcs is not None and fn.name not in funcs:
+            continue
+        bad = None
+        nread = 0
+        for p in ex.explore(fn):
+            for cn, t, ins in p.assume:
+                if not sym.mentions(cn, lambda v: v[0] == 'ld' and v[1] == ('errno',)):
+                    continue
+                nread += 1
+                seq = next((k for k, a in enumerate(p.assume) if a[2] is ins), len(p.assume))
+                before = [e for e in p.events if e.seq <= seq]
+                if any(e.kind == 'store' and e.addr == ('errno',) for e in before):
+                    continue
+                calls = [e for e in before if e.kind == 'call' and not e.inlined and e.name not in ('strlen', 'strcmp', 'strcasecmp', 'strspn', 'strcspn', 'strchr')]
+                last = calls[-1] if calls else None
+                failed = last is not None and any(sym.mentions(c2, lambda v: v == last.res) and not sym.mentions(c2, lambda v: v[0] == 'ld' and v[1] == ('errno',))
+                                                  for c2, _, _ in p.assume[:seq + 1])
+                if failed:
+                    continue
+                bad = bad or (p, ins, last)
+        nr += 1 if nread else 0
+        if bad:
+            chk.fail(rid, 'ambient-errno:%s' % fn.name, c.where(bad[1]) if bad[1] is not None else c.where(fn),
+                     '%s() branches on errno although nothing on that path has stored a value into it%s: the test sees what an earlier, unrelated '
+                     'failure (e.g. ERANGE from a refused number in an earlier parse) left there'
+                     % (fn.name, ' and the outcome of %s() was not examined' % bad[2].name if bad[2] is not None else ''))
+        elif nread:
+            chk.ok(rid, '%s: %d decisions on errno' % (fn.name, nread), 'each after a store to errno on that path, or after a call whose failure was established')
+    return nr
 
 
 def refused_include_leaves_nothing(c, chk):
